@@ -162,7 +162,42 @@ def run():
         if got != want and not (isinstance(want[1], float) and isinstance(got[1], (int, float)) and abs(want[1] - got[1]) < 1e-9):
             bad.append(f'{name}: CPython {want!r}, executor {got!r}')
     n_sl, bad_sl = symlist_lengths()
-    return compared + n_sl, skipped, bad + bad_sl
+    n_rx, bad_rx = pyregex_on_ropes()
+    return compared + n_sl + n_rx, skipped, bad + bad_sl + bad_rx
+
+
+def pyregex_on_ropes():
+    """pyvc/pyregex.py: pattern.sub on a rope (atoms -> placeholders -> real engine -> rope) against the real engine on instantiations of the atoms"""
+    import itertools
+    import re
+    from contracts import ropes as R
+    from .pyregex import PyRegexModel, _atom_blind
+    from .values import Obj, Unsupported
+    bad, n_cmp = [], 0
+    pats = [(r'(?:\?\??|[;!].*)$', re.DOTALL), (r'[;!].*$', 0), (r'\?+$', 0), (r';[^;!]*', 0), (r'^[^:]*://', 0), (r'!.*', re.DOTALL)]
+    shapes = [['tcp://', 'A', ':', 'B', '?;', 'C'], ['A', '??;', 'B', ';', 'C', '!', 'D', '=1'], ['A'], ['A', '?'], ['ipc://', 'A', '!', 'B'], ['A', ';', 'B', '?']]
+    insts = [('a', 'b', 'c', 'd'), ('host', '5550', 'main', 'opt'), ('x9_', 'yy', 'z', 'no')]
+    for (pat, fl), shape, count in itertools.product(pats, shapes, (0, 1)):
+        if _atom_blind(pat, fl, R.SEPS):
+            bad.append(f'pyregex: pattern {pat!r} expected to be atom-blind')
+            continue
+        atoms = {n: R.Atom(n) for n in 'ABCD'}
+        rp = R.rope(*[atoms[p] if p in atoms else p for p in shape])
+        o = Obj('pyregex', pattern=pat, flags=fl, rx=re.compile(pat, fl), name='t')
+        got = PyRegexModel.m_sub(None, o, '', rp, count)
+        for inst in insts:
+            m = dict(zip('ABCD', inst))
+            concrete = ''.join(m.get(p, p) for p in shape)
+            want = re.sub(pat, '', concrete, count=count, flags=fl)
+            have = got if isinstance(got, str) else ''.join(p if isinstance(p, str) else m[p.name] for p in R.parts_of(got))
+            n_cmp += 1
+            if have != want:
+                bad.append(f'pyregex: sub({pat!r}, "", {concrete!r}, {count}): CPython {want!r}, executor {have!r}')
+    for pat in (r'.;', r'\w+$', r'.{2}', r'.+?$', r'[a-z]*;'):     # these can look inside an atom: must be refused
+        if not _atom_blind(pat, 0, R.SEPS):
+            bad.append(f'pyregex: pattern {pat!r} must be refused on ropes')
+        n_cmp += 1
+    return n_cmp, bad
 
 
 def symlist_lengths():
